@@ -421,6 +421,18 @@ func c22Gen(r *Rng, tier string, emit func(string)) {
 		spliced := append(append(append([]byte{}, stream[:off]...), bad...), stream[off:]...)
 		frames(max, [][]byte{spliced})
 		frames(max, cutAt(spliced, randomCuts(r, len(spliced), r.Range(1, 5))))
+		if i%3 == 1 && len(spliced) >= off+5 {
+			// the same through the real readLoop: once the bad prefix and one more byte have arrived the peer must be
+			// disconnected, wherever the reads end (right after the prefix, inside it, before it)
+			rl := func(cs [][]byte) { emit("readloop " + strconv.Itoa(max) + " " + chunkStr(cs)) }
+			for _, c := range []int{off, off + 2, off + 4, off + 5} {
+				if c <= len(spliced) {
+					rl(cutAt(spliced, []int{c}))
+				}
+			}
+			rl(cutAt(spliced, []int{off, off + 4}))
+			rl(cutAt(spliced, randomCuts(r, len(spliced), r.Range(1, 4))))
+		}
 		// boundary length prefixes with exactly / one less than the announced payload
 		for _, l := range []int{3, 4, 5, max - 1, max, max + 1} {
 			if l < 0 || l > 4096 {
